@@ -20,7 +20,13 @@ def extend_ecdf(cdf):
 
     args:
         CDF_bundle
+
+    note:
+        returns a new bundle; the bundle passed in is left untouched
     """
+    from copy import copy
+
+    cdf = copy(cdf)  # np.insert / np.append below build new arrays, so the caller's bundle keeps its own
     if cdf.probabilities[0] != 0:
         cdf.probabilities = np.insert(cdf.probabilities, 0, 0)
         cdf.quantiles = np.insert(cdf.quantiles, 0, cdf.quantiles[0])
